@@ -549,16 +549,29 @@ fn main() {
         };
         let mut prev = 0;
         let mut acked = 0;
+        let mut stalled = false;
         for c in cuts {
             let part = &hdr_in[prev..c];
             prev = c;
             let mut at = 0;
             let t0 = Instant::now();
+            let mut dead = false;
             while at < part.len() && t0.elapsed() < DEADLINE {
-                pump_write(&mut client, part, &mut at);
+                if !pump_write(&mut client, part, &mut at) {
+                    dead = true;        // the worker closed the connection (reported below): nothing more can be written
+                    break;
+                }
+            }
+            if dead {
+                break;
             }
             // read-ack: our send queue is empty (the bytes reached the worker's socket) and the worker's
             // receive queue is empty (it has read them)
+            // a worker that stopped reading (session closed or stuck: a finding reported below) is not waited
+            // for again: the rest of the header is written without read-acks
+            if stalled {
+                continue;
+            }
             let t0 = Instant::now();
             loop {
                 let mut outq: libc::c_int = 0;
@@ -572,6 +585,7 @@ fn main() {
                     break;
                 }
                 if t0.elapsed() > Duration::from_secs(5) {
+                    stalled = true;
                     break;
                 }
                 idle();
